@@ -18,7 +18,7 @@ let rec find_first p l i = match l with [] -> None | x :: r -> if p x then Some 
 
 (* sortobj <cs> <tree> <ops...> *)
 let h_sortobj (a : string array) : string =
-  let cs = a.(1) = "1" in
+  let cs = a.(1) = "1" || a.(1) = "3" in   (* 2 / 3: same call with a starved allocator on the implementation side; the model sorts without memory *)
   let pos = ref 2 in
   let root = parse_node a pos in
   match run_sort_case cs root with
